@@ -4,12 +4,6 @@
 // end in error state) and Unknown (a head byte of no token class: the token reader promises nothing, see unit proto).
 // ---------------------------------------------------------------------------------------------
 
-pub enum Dec<T> {
-    Ok(T, Seq<u8>),
-    Fail,
-    Unknown,
-}
-
 /// shape of every record-reader postcondition (reader was ok before the call): `got` is the view of what the call
 /// returned, `rel` says that the byte source fails only at end of data
 pub open spec fn rd<T>(d: Dec<T>, rel: bool, ok1: bool, rest1: Seq<u8>, got: T) -> bool {
@@ -64,9 +58,6 @@ pub open spec fn d_id(s: Seq<u8>) -> Dec<u32> {
         Dec::Unknown => Dec::Unknown,
     }
 }
-
-/// the bytes read_data consumes and the value it returns: uninterpreted (the Data codec is not under contract)
-pub uninterp spec fn d_data(s: Seq<u8>) -> Dec<Data>;
 
 // ---- views (what of a record is persisted) -----------------------------------------------------------
 pub struct ParamV {
